@@ -777,9 +777,10 @@ class Generator:
                 elif c == 'closure':
                     # //@ closure K |typed params|   followed by spec lines
                     cur = ('closure', [tok[1], d.split(None, 2)[2]], [], lno + 1)
-                elif c == 'sub':
-                    rg, rp = d[3:].split('=>', 1)
-                    e.subs.append((rg.strip(), rp.strip()))
+                elif c in ('sub', 'sub?'):
+                    # `sub?`: a general rewrite that may match zero times (`sub` must match: a pinned expression)
+                    rg, rp = d[len(c):].split('=>', 1)
+                    e.subs.append((rg.strip(), rp.strip(), c == 'sub?'))
                 elif c == 'if':
                     # conditional inside fn block: only whole sub-directives
                     cur = ('cond', tok[1:], [], lno)
@@ -1078,12 +1079,16 @@ class Generator:
                 raise Inconclusive('%s: untransmute requested but no workaround_transmute binding found' % path)
             self._count('R17', k)
             self.log.append({'rule': 'R17', 'fn': path, 'count': k})
-        for rg, rp in edit.subs:
+        for sub_ in edit.subs:
+            rg, rp = sub_[0], sub_[1]
+            optional = len(sub_) > 2 and sub_[2]
             def _padded(mm, rp=rp):
                 newt = mm.expand(rp)
                 d = mm.group(0).count('\n') - newt.count('\n')
                 return newt + ('\n' * d if d > 0 else '')
             text, k = re.subn(rg, _padded, text)
+            if k == 0 and optional:
+                continue
             if k == 0:
                 raise Inconclusive('%s: local rewrite %r did not match' % (path, rg))
             self._count('local-sub', k)
